@@ -70,8 +70,11 @@ def constToJson (c : Const) : Json :=
   obj [("name", nameJ c.name), ("cols", strs c.cols), ("text", Json.str c.text),
        ("rtable", Json.str c.rtable), ("rcols", strs c.rcols)]
 
-def indexOfJson (j : Json) : Index := { name := getStrD j "name", cols := getStrList j "cols", unique := getBoolD j "unique" }
-def indexToJson (i : Index) : Json := obj [("name", Json.str i.name), ("cols", strs i.cols), ("unique", Json.bool i.unique)]
+def indexOfJson (j : Json) : Index :=
+  { name := getStrD j "name", cols := getStrList j "cols", unique := getBoolD j "unique",
+    where_ := optStr j "where", whereMentions := getStrList j "where_mentions", wherePred := predOfJson (getObj j "where_pred") }
+def indexToJson (i : Index) : Json :=
+  obj [("name", Json.str i.name), ("cols", strs i.cols), ("unique", Json.bool i.unique), ("where", nameJ i.where_)]
 
 def rowsOfJson (j : Json) : List Row :=
   (getArr j "rows").map (fun r => match r with
@@ -173,7 +176,10 @@ def stmtTok : Stmt → String
   | .dropOld => "dropOld"
   | .dropTmp => "dropTmp"
   | .renameTmp => "renameTmp"
-  | .createIndex ix => "createIndex:" ++ ix.name ++ ":" ++ ",".intercalate ix.cols ++ ":" ++ (if ix.unique then "u" else "n")
+  | .createIndex ix => "createIndex:" ++ ix.name ++ ":" ++ ",".intercalate ix.cols ++ ":" ++ (if ix.unique then "u" else "n") ++
+      (match ix.where_ with
+       | some w => ":where=" ++ w
+       | none => "")
   | .alterAdd c => "alterAdd:" ++ c.name
   | .dropIndex n => "dropIndex:" ++ n
 
@@ -190,6 +196,9 @@ def handle (op : String) (j : Json) : Option Json :=
     | some ops =>
       let out := runBatch (convOfJson j) (getStrD j "table") (getBoolD j "reflected" true) (getBoolD j "always" true) ops
         (getNat j "fault") (getBoolD j "commitOnError") (dbOfJson (getObj j "db")) (modeOfJson j) (getBoolD j "tddl")
+        (match getObj j "copy_from_schema" with
+         | .null => none
+         | cf => some (schemaOfJson cf))
       some (obj [("recreated", Json.bool out.recreated), ("stmts", strs (out.trace.map stmtTok)),
                  ("outcome", errJson out.err), ("final", dbToJson out.final)])
   | "batch.spec10" =>
